@@ -283,7 +283,7 @@ class Gen(object):
             if (u < 0.45 or depth >= 5) and not (active and depth < 5 and r.random() < 0.3):
                 m = methods.pop()
                 if m == "application":
-                    ops.append(self.app(cls, methods, ctl, inforce, depth))
+                    ops.append(self.app(cls, methods, ctl, inforce, depth, active))
                     continue
                 pos, kw, shape = self.call(cls, m, ctl, inforce)
                 if r.random() < 0.06:
@@ -517,6 +517,12 @@ def exhaustive_cases(sigs):
     return cases
 
 
+# what a kept Context object holds each time it is entered, as found by walking the history along the
+# implementation's events (Oracle.run): id(with-op) -> [[name, value]...].  An update() that is written in the
+# history but skipped by an exception must not count, which only the walk can tell.
+EFF = {}
+
+
 # ------------------------------------------------------------------ Coq literals
 def cstr(s):
     return '"%s"' % s
@@ -550,7 +556,7 @@ def cop(op):
     if k == "ctxupdate":
         return "OUpdate %s" % ckw(op[2])      # the object is the innermost context and on the stack once
     if k == "with":
-        return "OWith %s %s" % (ckw(op[1]), cops(op[2]))
+        return "OWith %s %s" % (ckw(EFF.get(id(op), op[1])), cops(op[2]))
     if k == "app":
         return "OApp %s %s %s %s" % (vlist(cval(v) for v in op[1]), ckw(op[2]), cops(op[3]),
                                      "true" if len(op) > 4 and op[4] else "false")
@@ -750,6 +756,7 @@ class Oracle(object):
         else:
             init = case["init"]
         self.stack = [dict((k, v) for k, v in init)]
+        self.keptobj = {}
 
     def fail(self, key, text):
         if self.why is None:
@@ -984,7 +991,16 @@ class Oracle(object):
                     frame = {"app_id": res["app_id"]}
                     blk = op[3]
                 else:
-                    frame = dict((a, b) for a, b in op[1])
+                    var = op[3] if k == "with" and len(op) > 3 else None
+                    if var is None:
+                        frame = dict((a, b) for a, b in op[1])
+                    else:
+                        # a Context object kept in a variable: made at its first use that is actually reached,
+                        # with the arguments written there; afterwards it holds whatever update() left in it
+                        if var not in self.keptobj:
+                            self.keptobj[var] = dict((a, b) for a, b in op[1])
+                        frame = self.keptobj[var]
+                        EFF[id(op)] = [[a, b] for a, b in frame.items()]
                     blk = op[2]
                 ent = self.next_event("stack")
                 merged = {}
@@ -1030,7 +1046,7 @@ class Oracle(object):
             elif k == "update":
                 self.stack[-1].update(dict((a, b) for a, b in op[1]))
             elif k == "ctxupdate":
-                self.stack[-1].update(dict((a, b) for a, b in op[2]))     # the object is the innermost context
+                self.keptobj[op[1]].update(dict((a, b) for a, b in op[2]))     # the object itself, wherever it is
             elif k == "callrefused":
                 e = self.next_event("call")
                 if e[1] != op[1]:
@@ -1188,6 +1204,7 @@ def run(chk, args):
     # batches bound the memory held at any time (thorough tier: ~30000 histories)
     for lo in range(0, len(cases), 4000):
         batch = cases[lo:lo + 4000]
+        EFF.clear()
         chunks = [batch[i:i + 150] for i in range(0, len(batch), 150)]
         outs = [o for part in chk.impl_parallel("impl_c18.py", chunks) for o in part]
         for c, o in zip(batch, outs):
